@@ -1118,3 +1118,94 @@ Proof.
       exact (sf_complete k s _ evs F id c' Hg). }
   reflexivity.
 Qed.
+
+(** *** blocks *)
+Definition tick_rule (el : Z) (p : aparam) (e w : Z) : Z * Z :=
+  if ap_tl p && (e + el <? ap_period p) then (e + el, w) else (0, 0).
+
+Lemma tick_other el s p d : d <> ap_denom p ->
+  elmap (tick_asset el s p) d = elmap s d /\ sup_of (st_win (tick_asset el s p)) d = sup_of (st_win s) d.
+Proof.
+  intros Hne. unfold tick_asset, elmap. cbv zeta. sproj. rewrite get_set_other by exact Hne. split; [reflexivity|].
+  destruct (ap_tl p && _); [reflexivity|]. rewrite sup_of_set.
+  replace (d =? ap_denom p) with false by (symmetry; apply Z.eqb_neq; exact Hne). reflexivity.
+Qed.
+
+Lemma tick_at el s p a : get (ap_denom p) (st_assets s) = Some a ->
+  elmap (tick_asset el s p) (ap_denom p) = Some (fst (tick_rule el p (as_el a) (sup_of (st_win s) (ap_denom p))))
+  /\ sup_of (st_win (tick_asset el s p)) (ap_denom p) = snd (tick_rule el p (as_el a) (sup_of (st_win s) (ap_denom p))).
+Proof.
+  intros Ha. destruct (window_reset_rule el s p a Ha) as [Hw He]. unfold elmap, tick_rule. rewrite He, Hw.
+  destruct (ap_tl p && (as_el a + el <? ap_period p)); split; reflexivity.
+Qed.
+
+Lemma tick_fold_at el : forall l s, NoDup (map ap_denom l) ->
+  (forall p a, In p l -> get (ap_denom p) (st_assets s) = Some a ->
+     elmap (fold_left (tick_asset el) l s) (ap_denom p) = Some (fst (tick_rule el p (as_el a) (sup_of (st_win s) (ap_denom p))))
+     /\ sup_of (st_win (fold_left (tick_asset el) l s)) (ap_denom p) = snd (tick_rule el p (as_el a) (sup_of (st_win s) (ap_denom p))))
+  /\ (forall d, ~ In d (map ap_denom l) ->
+        elmap (fold_left (tick_asset el) l s) d = elmap s d /\ sup_of (st_win (fold_left (tick_asset el) l s)) d = sup_of (st_win s) d).
+Proof.
+  induction l as [|p0 l IH]; intros s Hnd; simpl.
+  - split; [intros p a []|]. intros d _. split; reflexivity.
+  - inversion Hnd as [|? ? Hni Hnd']; subst. destruct (IH (tick_asset el s p0) Hnd') as [IHa IHo]. split.
+    + intros p a [->|Hin] Ha.
+      * destruct (IHo (ap_denom p) Hni) as [E1 E2]. rewrite E1, E2. exact (tick_at el s p a Ha).
+      * assert (Hne : ap_denom p <> ap_denom p0) by (intros E; apply Hni; rewrite <- E; apply in_map; exact Hin).
+        destruct (tick_other el s p0 (ap_denom p) Hne) as [E1 E2].
+        assert (Ha' : exists a', get (ap_denom p) (st_assets (tick_asset el s p0)) = Some a' /\ as_el a' = as_el a).
+        { destruct (get (ap_denom p) (st_assets (tick_asset el s p0))) as [a'|] eqn:G.
+          - exists a'. split; [reflexivity|]. unfold elmap in E1. rewrite G, Ha in E1. simpl in E1. congruence.
+          - unfold elmap in E1. rewrite G, Ha in E1. discriminate. }
+        destruct Ha' as (a' & Ha' & Hel). destruct (IHa p a' Hin Ha') as [F1 F2]. rewrite F1, F2, Hel, E2. split; reflexivity.
+    + intros d Hd. destruct (IHo d (fun H => Hd (or_intror H))) as [E1 E2].
+      destruct (tick_other el s p0 d (fun E => Hd (or_introl (eq_sym E)))) as [G1 G2]. rewrite E1, E2, G1, G2. split; reflexivity.
+Qed.
+
+Lemma refund_fold_params h : forall l s2, st_params (fold_left (refund_one h) l s2) = st_params s2.
+Proof.
+  induction l as [|id l IH]; intros s2; simpl; [reflexivity|]. rewrite IH. unfold refund_one, dequeue. sproj.
+  destruct (get id (st_contracts s2)) as [c|]; [|reflexivity].
+  unfold refund. cbv zeta. destruct (c_transfer c).
+  - destruct (c_amount c) as [|[d x] cs]; [reflexivity|]. destruct (c_dir c); [reflexivity| |].
+    + destruct (with_asset s2 d (dec_incoming x)) as [s3|] eqn:Hw; [|reflexivity].
+      destruct (with_asset_Some _ _ _ _ Hw) as (? & ? & ? & _ & _ & _ & ->). reflexivity.
+    + destruct (with_asset s2 d (dec_outgoing x)) as [s3|] eqn:Hw; [|reflexivity].
+      destruct (with_asset_Some _ _ _ _ Hw) as (? & ? & ? & _ & _ & _ & ->). unfold pay_out.
+      destruct (blocked (c_sender c)); [reflexivity|]. sproj. destruct (send_coins _ _ _ _); reflexivity.
+  - unfold pay_out. destruct (blocked (c_sender c)); [reflexivity|]. destruct (send_coins _ _ _ _); reflexivity.
+Qed.
+
+Definition PrevInv (s : state) : Prop := st_prev s = st_time s.
+
+Lemma wtick_rule dt p e w : wtick dt (p, (e, w)) = tick_rule dt p e w.
+Proof. reflexivity. Qed.
+
+Lemma begin_block_ws k s dt ws : Inv s -> st_params s = k_params k -> NoDup (map ap_denom (k_params k)) ->
+  PrevInv s -> WsRel k s ws ->
+  WsRel k (begin_block s dt) (map (wtick dt) (combine (k_params k) ws)) /\ (k_params k <> [] -> PrevInv (begin_block s dt)).
+Proof.
+  intros I HP Hnd HPrev WR. unfold begin_block. cbv zeta.
+  set (s0 := new_block s dt). set (s1 := fold_left (refund_one (st_height s0)) (due (st_height s0) (st_queue s0)) s0).
+  destruct (fold_quiet (refund_one (st_height s0)) (refund_one_quiet (st_height s0)) (due (st_height s0) (st_queue s0)) s0)
+    as ((Hel & Ht & Hp) & Hwn). fold s1 in Hel, Ht, Hp, Hwn.
+  assert (Hpar1 : st_params s1 = k_params k) by (unfold s1; rewrite refund_fold_params; exact HP).
+  unfold update_windows. rewrite Hpar1. destruct (k_params k) as [|p0 P] eqn:EP.
+  - split; [intros p w Hin; rewrite EP in Hin; destruct Hin|congruence].
+  - rewrite <- EP in *. clear p0 P EP.
+    assert (Hdt : st_time s1 - st_prev s1 = dt).
+    { rewrite Ht, Hp. unfold s0, new_block. sproj. unfold PrevInv in HPrev. lia. }
+    rewrite Hdt. destruct (tick_fold_at dt (k_params k) s1 Hnd) as [Hat _].
+    split; [|intros _; unfold PrevInv; reflexivity].
+    intros p w Hin Htl. sproj. rewrite combine_map_snd in Hin. apply in_map_iff in Hin.
+    destruct Hin as ([p1 [e0 w0]] & E & Hin0). cbn [fst] in E. inversion E; subst p w. clear E.
+    destruct (WR p1 (e0, w0) Hin0 Htl) as [He Hw]. cbn [fst snd] in He, Hw.
+    assert (Hp1 : In p1 (k_params k)) by (exact (in_combine_l _ _ _ _ Hin0)).
+    assert (Ha : exists a, get (ap_denom p1) (st_assets s1) = Some a /\ as_el a = e0).
+    { pose proof (Hel (ap_denom p1)) as E1. unfold elmap in E1. change (st_assets s0) with (st_assets s) in E1. rewrite He in E1.
+      destruct (get (ap_denom p1) (st_assets s1)) as [a|] eqn:G; [|discriminate]. exists a. split; [reflexivity|]. simpl in E1. congruence. }
+    destruct Ha as (a & Ha & Hae). destruct (Hat p1 a Hp1 Ha) as [F1 F2].
+    unfold elmap in F1. change (if ap_tl p1 && (e0 + dt <? ap_period p1) then (e0 + dt, w0) else (0, 0)) with (tick_rule dt p1 e0 w0).
+    rewrite F1, F2, Hae, Hwn. change (st_win s0) with (st_win s). rewrite <- Hw.
+    split; reflexivity.
+Qed.
